@@ -129,7 +129,7 @@ func CheckC16(c *C16Case, st *Stats) error {
 
 func init() {
 	Register("C16",
-		"rapid-generated value trees (as C02) x indent drawn from {-1000,-3,-1,0..10,11,14,2^40} weighted to the boundaries. Inside 0..10 the output must be non-empty, accepted by the strict scanner, denote the generated tree, and equal byte-for-byte the canonical layout re-created from its own raw tokens; outside it must panic; container unchanged. Non-trivial = indent outside the range, or nesting >= 2 with an empty container or a string/key that needs escaping. Distinct = distinct FNV-64a hash of the case JSON.",
+		"rapid-generated value trees (as C02) x indent drawn from {-1000,-3,-1,0..10,11,14,2^40} weighted to the boundaries. Inside 0..10 the output must be non-empty, accepted by the strict scanner, denote the generated tree, equal byte-for-byte the canonical layout re-created from its own raw tokens, consist of exactly the raw tokens of String() (members matched by key), and be read back by the library as the same container with the same kinds; outside it must panic; container unchanged. Non-trivial = indent outside the range, or nesting >= 2 with an empty container or a string/key that needs escaping. Distinct = distinct FNV-64a hash of the case JSON.",
 		GenC16, CheckC16)
 }
 
